@@ -182,6 +182,24 @@ class Check(Property):
                 got = (bool(qa < qb), bool(qa == qb), bool(qa > qb), bool(qa <= qb), bool(qa >= qb))
                 if got != (True, False, False, True, False):
                     v.append(f"C05 {qa!r} vs {qb!r} (same unit, magnitudes {x!r} < {y!r}): (<, ==, >, <=, >=) = {got}")
+        # ordering two Unit objects is ordering the quantities 1 * unit: the same answer, or the same DimensionalityError
+        import operator
+        names = ["meter", "kilometer", "inch", "second", "hour", "hertz", "gram", "pound", "newton", "joule", "liter", "radian", "percent"]
+        for na in names:
+            for nb in names:
+                for opn, op in (("<", operator.lt), ("<=", operator.le), (">", operator.gt), (">=", operator.ge)):
+                    def run(f):
+                        try:
+                            return ("ok", bool(f()))
+                        except Exception as exc:  # noqa: BLE001
+                            return ("err", type(exc).__name__)
+                    got = run(lambda: op(getattr(u, na), getattr(u, nb)))
+                    want = run(lambda: op(u.Quantity(1, na), u.Quantity(1, nb)))
+                    if got != want:
+                        v.append(f"C05 Unit({na}) {opn} Unit({nb}) gives {got}, the quantities 1 {na} {opn} 1 {nb} give {want}")
+                        break
+            if len(v) > 10:
+                break
         return v
 
     def oracle(self, c):
